@@ -1,5 +1,299 @@
 import Driver.Proto
+import TonicModel.Model.Call
+import TonicModel.Spec.Call
+import TonicModel.Basic.Utf8
+/-
+C02 driver.  Case grammar and observed form: see harness/src/c02.rs.
+`model`: `Call.clientRequest` → the case's request transport plan → `Call.serve` → the case's
+response transport plan → `Call.clientReceive`, rendered.
+`verdict`: `Spec.Call.handlerOk` / `Spec.Call.clientOk` evaluated on the OBSERVED tokens, for
+every case inside the property's contract (matching shapes, decodable messages, error statuses
+that are errors); `never-hangs-or-panics` for all.  User metadata named `grpc-encoding` is NOT
+excluded: tonic lets it onto the wire and the peer refuses the call — the verdict fails on such
+cases and known_findings.json lists them (C02-F1).
+-/
 namespace DriverC02
-/-- stub: property not yet claimed -/
-def handle (_case _obs : List String) : String × String := ("unclaimed", "fail:unclaimed")
+open Proto Call
+
+/-! ### parsing the case -/
+
+structure StSpec where
+  code : Nat
+  msg : Bytes
+  details : Bytes
+  md : HMap
+
+structure Case where
+  h2 : Bool
+  srvReqStream : Bool
+  srvRespStream : Bool
+  cliRespStream : Bool
+  yieldThr : Nat
+  rqMd : HMap
+  rq : Sched Bytes
+  rqCut : List (Option Nat)
+  reads : Nat
+  early : Option StSpec
+  initMd : HMap
+  body : Sched Bytes
+  fin : Option StSpec
+  rsCut : List (Option Nat)
+
+abbrev P (α : Type) := List String → Option (α × List String)
+
+def pNat : P Nat
+  | t :: r => (nat? t).map (·, r)
+  | [] => none
+
+def pBytes : P Bytes
+  | t :: r => (unhex t).map (·, r)
+  | [] => none
+
+def pExpect (s : String) : P Unit
+  | t :: r => if t = s then some ((), r) else none
+  | [] => none
+
+def pMany (p : P α) : Nat → P (List α)
+  | 0, r => some ([], r)
+  | n + 1, r =>
+    match p r with
+    | some (a, r') => (pMany p n r').map (fun (as, r'') => (a :: as, r''))
+    | none => none
+
+def pCounted (p : P α) : P (List α) := fun r =>
+  match pNat r with
+  | some (n, r') => pMany p n r'
+  | none => none
+
+def pEntry : P (Bytes × Bytes) := fun r =>
+  match pBytes r with
+  | some (k, r') => (pBytes r').map (fun (v, r'') => ((k, v), r''))
+  | none => none
+
+def pTok : P (Option Bytes)
+  | t :: r => if t = "p" then some (none, r) else (unhex t).map (fun m => (some m, r))
+  | [] => none
+
+def pStep : P (Option Nat)
+  | t :: r => if t = "p" then some (none, r) else (nat? t).map (fun n => (some n, r))
+  | [] => none
+
+def pStatus : P (Option StSpec)
+  | "-" :: r => some (none, r)
+  | r =>
+    match pNat r with
+    | some (c, r1) =>
+      match pBytes r1 with
+      | some (m, r2) =>
+        match pBytes r2 with
+        | some (d, r3) => (pCounted pEntry r3).map (fun (md, r4) => (some ⟨c, m, d, md⟩, r4))
+        | none => none
+      | none => none
+    | none => none
+
+def bit (c : Char) : Bool := c = '1'
+
+def parseCase (toks : List String) : Option Case := do
+  let (head, r) ← (match toks with | k :: r => some (k.splitOn ".", r) | [] => none)
+  let (kind, s, c) ← (match head with | [k, s, c] => some (k, s.toList, c.toList) | _ => none)
+  if kind ≠ "call" ∧ kind ≠ "h2" ∧ kind ≠ "h2x" ∧ !kind.startsWith "callz-" then none
+  let (q, sr) ← (match s with | ['S', a, b] => some (bit a, bit b) | _ => none)
+  let cr ← (match c with | ['C', a] => some (bit a) | _ => none)
+  let (y, r) ← pNat r
+  let (_, r) ← pExpect "RQMD" r
+  let (rqMd, r) ← pCounted pEntry r
+  let (_, r) ← pExpect "RQ" r
+  let (rq, r) ← pCounted pTok r
+  let (_, r) ← pExpect "RQCUT" r
+  let (rqCut, r) ← pCounted pStep r
+  let (_, r) ← pExpect "H" r
+  let (reads, r) ← pNat r
+  let (_, r) ← pExpect "E" r
+  let (early, r) ← pStatus r
+  let (_, r) ← pExpect "INIT" r
+  let (initMd, r) ← pCounted pEntry r
+  let (_, r) ← pExpect "BODY" r
+  let (body, r) ← pCounted pTok r
+  let (_, r) ← pExpect "FINAL" r
+  let (fin, r) ← pStatus r
+  let (_, r) ← pExpect "RSCUT" r
+  let (rsCut, r) ← pCounted pStep r
+  if r ≠ [] then none
+  some { h2 := kind = "h2" ∨ kind = "h2x", srvReqStream := q, srvRespStream := sr, cliRespStream := cr, yieldThr := y,
+         rqMd, rq, rqCut, reads, early, initMd, body, fin, rsCut }
+
+/-! ### running the model -/
+
+def rawCodec : Framing.Codec Bytes where
+  ser := id
+  de := fun b => if b.head? = some 255 then none else some b
+  deErr := 13
+  cz := fun _ b => b
+  dz := fun _ b => some b
+
+def fullSt (s : StSpec) : FSt :=
+  { code := Status.Code.ofNum s.code, message := s.msg, details := s.details, metadata := s.md }
+
+/-- what `ReChunk` (harness) makes of a body's data under a plan -/
+def applyPlan : List (Option Nat) → Bytes → List (Option Bytes)
+  | [], [] => []
+  | [], rest => [some rest]
+  | none :: p, bs => none :: applyPlan p bs
+  | some k :: p, bs =>
+    if k = 0 then some [] :: applyPlan p bs
+    else if bs.isEmpty then applyPlan p bs
+    else some (bs.take k) :: applyPlan p (bs.drop k)
+
+def renderSt (st : FSt) : List String :=
+  toString st.code.num :: hex st.message :: hex st.details :: HMap.render st.metadata
+
+def renderSeen : Seen Bytes → List String
+  | .notCalled => ["notcalled"]
+  | .unary md m => "unary" :: HMap.render md ++ [hex m]
+  | .stream md ms e =>
+    "stream" :: HMap.render md ++ (toString ms.length :: ms.map hex) ++
+      (match e with
+       | none => ["open"]
+       | some none => ["done"]
+       | some (some st) => "err" :: renderSt st)
+
+def renderClient : ClientObs Bytes → List String
+  | .err st => "err" :: renderSt st
+  | .single md m => "single" :: HMap.render md ++ [hex m]
+  | .hang => ["hang"]
+  | .stream md ms e tr =>
+    "stream" :: HMap.render md ++ (toString ms.length :: ms.map hex) ++
+      (match e with
+       | none => ["ok"]
+       | some st => "err" :: renderSt st) ++
+      ("TR" :: (match tr with | none => ["none"] | some t => HMap.render t))
+
+def runModel (c : Case) : String :=
+  let sc : Script Bytes :=
+    { early := c.early.map fullSt, initMd := c.initMd, body := c.body, final := c.fin.map fullSt, reads := c.reads }
+  let bytes := (c.rq.msgs.map (fun m => m.length + 5)).sum + (c.body.msgs.map (fun m => m.length + 5)).sum
+  let cfg : Cfg Bytes :=
+    { cd := rawCodec, deMsg := ascii "codec", yieldThr := c.yieldThr,
+      fuel := bytes + c.rqCut.length + c.rsCut.length + c.rq.length + c.body.length + 16 }
+  let npolls := c.rq.length + c.body.length + 4
+  let req := clientRequest cfg npolls { md := c.rqMd, msgs := c.rq }
+  -- over real HTTP/2 the chunking is h2's; the plan fragments the byte pipe underneath it
+  let rd : ReqDelivery := { headers := req.headers, chunks := applyPlan (if c.h2 then [] else c.rqCut) (reqData req.body) }
+  let (seen, resp) := serve cfg npolls c.srvReqStream c.srvRespStream sc rd
+  let d : RespDelivery :=
+    { status := resp.status, headers := resp.headers,
+      chunks := applyPlan (if c.h2 then [] else c.rsCut) (respData resp.body),
+      trailers := (respTrailers resp.body).head? }
+  let obs := clientReceive cfg c.cliRespStream d
+  let sk := match seen with
+    | .notCalled => "notcalled"
+    | .unary _ _ => "unary"
+    | .stream _ _ none => "stream-open"
+    | .stream _ _ (some none) => "stream-done"
+    | .stream _ _ (some (some _)) => "stream-err"
+  let ck := match obs with
+    | .err st => "err" ++ toString st.code.num
+    | .single _ _ => "single"
+    | .hang => "hang"
+    | .stream _ _ none _ => "stream-ok"
+    | .stream _ _ (some _) _ => "stream-err"
+  String.intercalate " " (("K=" ++ sk ++ "/" ++ ck) :: "SEEN" :: renderSeen seen ++ "CLIENT" :: renderClient obs)
+
+/-! ### the spec verdict on the observed output -/
+
+def pRendered : P HMap := fun r => HMap.parseRendered r
+
+def pObsSt : P Spec.Call.St := fun r =>
+  match pNat r with
+  | some (c, r1) =>
+    match pBytes r1 with
+    | some (m, r2) =>
+      match pBytes r2 with
+      | some (d, r3) => (pRendered r3).map (fun (md, r4) => (⟨c, m, d, md⟩, r4))
+      | none => none
+    | none => none
+  | none => none
+
+def pObsSeen : P (Spec.Call.Got Bytes × Bool)   -- (what it got, whether the request stream ended in an error)
+  | "notcalled" :: r => some ((.notCalled, false), r)
+  | "unary" :: r =>
+    match pRendered r with
+    | some (md, r1) => (pBytes r1).map (fun (m, r2) => ((.unary md m, false), r2))
+    | none => none
+  | "stream" :: r =>
+    match pRendered r with
+    | some (md, r1) =>
+      match pCounted pBytes r1 with
+      | some (ms, "open" :: r2) => some ((.stream md ms none, false), r2)
+      | some (ms, "done" :: r2) => some ((.stream md ms (some true), false), r2)
+      | some (ms, "err" :: r2) => (pObsSt r2).map (fun (_, r3) => ((.stream md ms (some false), true), r3))
+      | _ => none
+    | none => none
+  | _ => none
+
+def pObsClient : P (Spec.Call.Saw Bytes)
+  | "err" :: r => (pObsSt r).map (fun (st, r') => (.failed st, r'))
+  | "single" :: r =>
+    match pRendered r with
+    | some (md, r1) => (pBytes r1).map (fun (m, r2) => (.single md m, r2))
+    | none => none
+  | "stream" :: r =>
+    match pRendered r with
+    | some (md, r1) =>
+      match pCounted pBytes r1 with
+      | some (ms, "ok" :: "TR" :: r2) => some (.stream md ms none, if r2 = ["none"] then [] else match pRendered r2 with | some (_, r3) => r3 | none => ["?"])
+      | some (ms, "err" :: r2) =>
+        match pObsSt r2 with
+        | some (st, "TR" :: r3) => some (.stream md ms (some st), if r3 = ["none"] then [] else match pRendered r3 with | some (_, r4) => r4 | none => ["?"])
+        | _ => none
+      | _ => none
+    | none => none
+  | _ => none
+
+def specSt (s : StSpec) : Spec.Call.St := ⟨s.code, s.msg, s.details, s.md⟩
+
+def decodable (m : Bytes) : Bool := m.head? != some 255
+
+def stInScope (s : StSpec) : Bool := s.code != 0 && s.code ≤ 16 && Utf8.valid s.msg
+
+/-- the request side is inside the property's contract -/
+def reqInScope (c : Case) : Bool :=
+  c.rq.msgs.all decodable && (c.srvReqStream || c.rq.msgs.length == 1)
+
+/-- the response side is inside the property's contract -/
+def respInScope (c : Case) : Bool :=
+  c.srvRespStream == c.cliRespStream && c.body.msgs.all decodable &&
+  (match c.early with | some s => stInScope s | none => true) &&
+  (match c.fin with | some s => stInScope s | none => true) &&
+  (c.srvRespStream || (c.body.msgs.length == 1 && c.fin.isNone))
+
+def didOf (c : Case) : Spec.Call.Did Bytes :=
+  match c.early with
+  | some s => .failed (specSt s)
+  | none => .responded c.initMd c.body.msgs (c.fin.map specSt)
+
+def verdictOf (c : Case) (obs : List String) : String :=
+  match obs with
+  | _ :: "SEEN" :: r =>
+    match pObsSeen r with
+    | some ((got, _), "CLIENT" :: r1) =>
+      if r1 = ["hang"] then "fail:never-hangs" else
+      match pObsClient r1 with
+      | some (saw, []) =>
+        verdict [
+          ("handler-sees-the-request",
+            !reqInScope c || Spec.Call.handlerOk c.srvReqStream c.reads ⟨c.rqMd, c.rq.msgs⟩ got),
+          ("client-sees-the-script",
+            !(reqInScope c && respInScope c) || Spec.Call.clientOk c.cliRespStream (didOf c) saw)]
+      | _ => "fail:observed-parses"
+    | _ => "fail:observed-parses"
+  | _ => if obs = ["bad-case"] then "ok" else "fail:never-panics"
+
+def handle (case obs : List String) : String × String :=
+  match parseCase case with
+  | none => bad
+  | some c =>
+    if !c.srvRespStream && c.early.isNone && c.body.msgs.isEmpty then ("bad-case", "ok")
+    else (runModel c, verdictOf c obs)
+
 end DriverC02
